@@ -14,6 +14,8 @@ Whys(e) ==
   IF e.op = "run" THEN <<IF e.calls > 0 THEN "ok" ELSE "H:stress-run-made-no-calls">>
   ELSE IF e.op = "race" THEN <<"P:C14:data-race-on-shared-recipe-list-or-separator-state">>
   ELSE IF e.op = "crash" THEN <<"P:C14:concurrent-calls-crashed-the-process">>
+  \* goroutines waiting for minutes inside library code while every loop of the driver is bounded by the clock
+  ELSE IF e.op = "hang" THEN <<"P:C14:concurrent-calls-on-shared-values-never-return">>
   ELSE <<"H:unknown-op">>
 RECURSIVE BadOf(_,_,_)
 BadOf(line, ws, i) == IF i > Len(ws) THEN <<>>
@@ -22,7 +24,7 @@ Init == l = 1 /\ bad = <<>> /\ done = FALSE /\ stats = [runs |-> 0, races |-> 0]
 Step == /\ l <= NLines
         /\ LET e == Trace[l] IN
              /\ bad' = bad \o BadOf(l, Whys(e), 1)
-             /\ stats' = [runs |-> stats.runs + (IF e.op = "run" THEN 1 ELSE 0), races |-> stats.races + (IF e.op \in {"race", "crash"} THEN 1 ELSE 0)]
+             /\ stats' = [runs |-> stats.runs + (IF e.op = "run" THEN 1 ELSE 0), races |-> stats.races + (IF e.op \in {"race", "crash", "hang"} THEN 1 ELSE 0)]
         /\ l' = l + 1 /\ UNCHANGED done
 Finish == /\ l = NLines + 1 /\ ~done /\ WriteResult(bad, stats) /\ done' = TRUE /\ UNCHANGED <<l, bad, stats>>
 Next == Step \/ Finish
